@@ -584,8 +584,8 @@ static void end_activate() {
   VA(mon_active == e && g->activeStateId() == e, 407);
   if (led_valid) {
     bool same = acc_valid && led_dest == acc_dest; bool limit = rounds == 1 + LIMIT;
-    VA(led_round >= 1, 243); VA(limit, 241);          // during activation nothing accepted can make a guard's request redundant
-    (void)same; led_maybe = true;
+    VA(led_round >= 1, 243); VA(same || limit, 241);   // (a redirect requested by the root head has no origin and can make a later one redundant)
+    if (same && !limit) led_valid = false; else led_maybe = true;
     led_fresh = false; led_round = -1; }
 #if HISTORY
   if (!acc_valid) VA(!g->previousTransition(), 1105);
